@@ -2837,6 +2837,18 @@ func (d *Document) parseSectionProperties(decoder *xml.Decoder, startElement xml
 				if err := d.skipElement(decoder, t.Name.Local); err != nil {
 					return nil, err
 				}
+			case "titlePg":
+				// 首页不同
+				sectPr.TitlePage = &TitlePage{}
+				if err := d.skipElement(decoder, t.Name.Local); err != nil {
+					return nil, err
+				}
+			case "pgNumType":
+				// 页码格式
+				sectPr.PageNumType = &PageNumType{Fmt: getAttributeValue(t.Attr, "fmt")}
+				if err := d.skipElement(decoder, t.Name.Local); err != nil {
+					return nil, err
+				}
 			case "docGrid":
 				// 解析文档网格
 				docGridType := getAttributeValue(t.Attr, "type")
